@@ -276,4 +276,30 @@ def r5_routed_at_that_version(ctx):
     ctx.check(R, "version-from-this-request", bool(rq.locals() & names) if names else True, "request_version reads the `request` local of this invocation", (hb, vbb))
 
 
-RULES = [("C05.E1", e1_matches), ("C05.E2", e2_overlaps), ("C05.E3", e3_from_until), ("C05.E4", e4_header_ceiling), ("C05.R5", r5_routed_at_that_version)]
+
+def r8_header_policy_cannot_panic(ctx):
+    """Added after adversary change C05-D (an `expect` in parse_header's not-ASCII error branch: a version header with
+    invalid UTF-8 kills the request task instead of being answered 400)."""
+    from .lib_c10 import panic_sites
+    R = ctx.rule("C05.R8", "no potential panic site (explicit panic, unwrap/expect family, indexing, overflow/bounds assertion) in the header version policy: "
+                 "request_version, request_extract_version, parse_header and their closures — every failure there is an Err value", floor=3)
+    roots = []
+    for pat in (r"^versioning::VersionPolicy::request_version$", r"^<versioning::ClientSpecifiesVersionInHeader as versioning::DynamicVersionPolicy>::request_extract_version$", r"^versioning::parse_header$"):
+        f = ctx.ds.one(pat)
+        if f is None:
+            ctx.lost(R, "function /%s/" % pat)
+            continue
+        roots.append(f)
+    for f in roots:
+        fns = [f] + ctx.ds.descendants(f)
+        sites = []
+        for g in fns:
+            for kind, what, exp, bb in panic_sites(g):
+                # slog's record macros contain no panics; format_args machinery is not a panic site either
+                sites.append((g, kind, what, bb))
+        ctx.check(R, "panic-free:%s" % f.id.split("::")[-1], not sites,
+                  "potential panic sites in %s and its %d closure(s): %s" % (f.id, len(fns) - 1, [(k, w.split("::")[-1]) for g, k, w, b in sites] or "none"),
+                  (sites[0][0], sites[0][3]) if sites else f)
+
+
+RULES = [("C05.R8", r8_header_policy_cannot_panic), ("C05.E1", e1_matches), ("C05.E2", e2_overlaps), ("C05.E3", e3_from_until), ("C05.E4", e4_header_ceiling), ("C05.R5", r5_routed_at_that_version)]
